@@ -1273,7 +1273,8 @@ def lenbound(pid):
                         dp = pr._def(d, 1, (l,))
                         if re.match(r"^const:[^()]*$", dp):
                             barrier.add(("t", d[0]) if d[1] == "t" else ("s", d[0], d[1]))
-            reach = pg.reach([pg.entry()], barrier)
+            from cfg import reach_flag_aware
+            reach = reach_flag_aware(f, pg, [pg.entry()], barrier)
             key = "R-LENBOUND/%s/%s-length-unbounded" % (f.path, otype.lower())
             bad = [st for (node, st) in oks if node in reach]
             n += 1
@@ -1420,7 +1421,8 @@ def nochild(pid):
                 for a in g.describe_all(b, val, vals):
                     if re.search(r" is not ObjType::Stream$", a) or (re.search(r" is ObjType::(\w+)$", a) and not a.endswith("::Stream")):
                         barrier.update(pg.edge_node(b, tgt))
-        reach = pg.reach([pg.entry()], barrier)
+        from cfg import reach_flag_aware
+        reach = reach_flag_aware(f, pg, [pg.entry()], barrier)
         bad = [st for (node, st) in oks if node in reach]
         if bad:
             res.fail(Finding(res.rule, "R-NOCHILD/%s/stream-with-child" % f.path, "a stream entry can reach the Ok return of read_from without its child field having been found equal to NO_STREAM: path lookups read `.child` of whatever entry a component resolved to and Directory::validate only follows the links of storages, so a damaged file hands an unvalidated index (or a cycle) to exists() / open_stream()", f, bad[0]["span"]))
@@ -1586,6 +1588,293 @@ def linkend(pid):
                 else:
                     res.fail(Finding(res.rule, "R-LINKEND/%s/link-stored-in-a-cell-not-known-to-be-the-end" % fpath, "%s stores the id of a newly allocated sector in the cell of %s, which was not found to hold END_OF_CHAIN (conditions: %s): when that sector is not the last of its chain, the chain is cut there and everything behind it stays allocated without an owner - a net-zero cycle grows the file" % (fpath.split("::")[-1], cell[:50], "; ".join(a[:60] for a in atoms[:3]) or "none"), f, c.term["span"]))
         res.floor("link stores of the extend functions", n, ctx.table("floors").get("linkend_sites", 0))
+        return res
+    return run
+
+
+def stalelen(pid):
+    """R-STALELEN: a length taken from a vector (`v.len()`, possibly multiplied) and kept in a variable describes the
+    vector at that moment.  When the vector is shortened afterwards (pop / truncate / retain / clear / drain / remove)
+    and the kept value is used after that, it bounds by entries that are no longer there.  In open_internal the bound
+    of the FAT padding is `difat.len() x entries per sector`; taken before the trailing FREE entries of the DIFAT are
+    stripped it lets the cached FAT be padded beyond what the listed FAT sectors cover, and the first allocation in the
+    uncovered range indexes the DIFAT out of bounds (defect D10, repaired by e5bb7bb; this is its re-ordering twin)."""
+    from dataflow import forward_taint
+
+    def run(ctx):
+        res = RuleResult("R-STALELEN(%s)" % pid, "no value derived from v.len() of a local vector is used after that vector was shortened, in the parsing code (open_internal, the validators)")
+        n = 0
+        scope = re.compile(r"(::open_internal$|::validate$)")
+        for f in ctx.fx.fns.values():
+            if not scope.search(f.path):
+                continue
+            v = view(ctx, f)
+            pr = Prov(f)
+            pg = v.pg
+            calls = list(v.calls.values())
+            for c in calls:
+                if not re.search(r"(Vec::<T, A>|VecDeque::<T, A>)::len$", c.name) or not c.term["args"] or c.term["dest"]["proj"]:
+                    continue
+                cont = pr.operand(c.term["args"][0])
+                if not re.match(r"^var:\w+$", cont):
+                    continue
+                shr = [x for x in calls if x.name.split("::")[-1] in ("pop", "truncate", "clear", "remove", "swap_remove", "drain", "split_off", "retain", "dedup") and x.term["args"] and pr.operand(x.term["args"][0]) == cont and ("t", x.bb) in pg.reach_after(("t", c.bb))]
+                if not shr:
+                    continue
+                n += 1
+                taint = forward_taint(f, {c.term["dest"]["local"]}, through_refs=False)
+                # a named variable that holds the derived value
+                names = f.debug_names()
+                kept = [l for l in taint if l in names and l != c.term["dest"]["local"]]
+                late_use = None
+                for sx in shr:
+                    after = pg.reach_after(("t", sx.bb))
+                    for b, blk in enumerate(f.blocks):
+                        if blk["cleanup"]:
+                            continue
+                        for i, st in enumerate(blk["stmts"]):
+                            if ("s", b, i) not in after or st["s"] != "assign":
+                                continue
+                            ops = []
+                            rv = st["rv"]
+                            for key in ("op", "a", "b"):
+                                if isinstance(rv.get(key), dict):
+                                    ops.append(rv[key])
+                            ops += rv.get("ops", []) if isinstance(rv.get("ops"), list) else []
+                            if any(o.get("k") in ("copy", "move") and not o["place"]["proj"] and o["place"]["local"] in kept for o in ops):
+                                late_use = (st["span"], sx)
+                        t = blk["term"]
+                        if ("t", b) in after and t["t"] == "call" and any(a.get("k") in ("copy", "move") and not a["place"]["proj"] and a["place"]["local"] in kept for a in t["args"]):
+                            late_use = (t["span"], sx)
+                key = "R-STALELEN/%s/%s" % (f.path, cont)
+                if late_use and kept:
+                    res.fail(Finding(res.rule, key, "a value derived from %s.len() (taken at line %d, kept in `%s`) is used after %s was shortened by %s() at line %d: it still counts the entries that were stripped, so whatever it bounds is bounded too generously (the cached FAT padded beyond what the FAT sectors cover -> the first allocation there indexes the DIFAT out of bounds)" % (cont[4:], c.line, names[kept[0]], cont[4:], late_use[1].name.split("::")[-1], late_use[1].line), f, late_use[0]))
+                else:
+                    res.ok({"function": f.path, "vector": cont, "len_line": c.line, "shortened_later": True, "kept_value_used_later": False}, nontrivial=True)
+        res.floor("lengths of vectors that are shortened later", n, ctx.table("floors").get("stalelen_sites", 0))
+        return res
+    return run
+
+
+def treetypes(pid):
+    """R-TREETYPES (invariant I-TYPES): every entry that Directory::validate accepts as part of the tree is a Root (the
+    root slot), a Storage or a Stream.  allocate_dir_entry hands out any slot whose type is Unallocated; a linked
+    entry of that type would be re-used while the tree still points at it (insert panics with "insert duplicate", or
+    the image stops reopening).  Decided as: in the walk loop of validate, from the pop that yields an entry no path
+    reaches the links of that entry (the reads of left_sibling / right_sibling / child that continue the walk) without
+    passing a switch edge on which the entry's type was found to BE Root, Storage or Stream."""
+    from rules_sink import _edge_label
+
+    def run(ctx):
+        res = RuleResult("R-TREETYPES(%s)" % pid, "Directory::validate follows the links of an entry only after its type was found to be Root, Storage or Stream")
+        f = ctx.fx.fns.get("internal::directory::Directory::<F>::validate")
+        if f is None:
+            res.gone.append("Directory::validate")
+            return res
+        v = view(ctx, f)
+        pg = v.pg
+        g = _guards(ctx, f)
+        pr = Prov(f)
+        pops = [c for c in v.calls.values() if c.name.endswith("Vec::<T, A>::pop")]
+        barrier = set(v.all_err_nodes())
+        nb = 0
+        for b, blk in enumerate(f.blocks):
+            if blk["cleanup"] or blk["term"]["t"] != "switch":
+                continue
+            for k, tgt in enumerate(f.succ(b)):
+                val, vals = _edge_label(f, b, k)
+                if any(re.search(r"\.obj_type is ObjType::(Root|Storage|Stream)$", a) for a in g.describe_all(b, val, vals)):
+                    barrier.update(pg.edge_node(b, tgt))
+                    nb += 1
+        # where the walk goes on: loads of a link field of the entry
+        link_nodes = []
+        for b, blk in enumerate(f.blocks):
+            if blk["cleanup"]:
+                continue
+            for i, st in enumerate(blk["stmts"]):
+                if st["s"] == "assign" and st["rv"]["r"] == "use" and st["rv"]["op"]["k"] in ("copy", "move") and st["rv"]["op"]["place"]["proj"]:
+                    fl = [e for e in st["rv"]["op"]["place"]["proj"] if e["p"] == "field"]
+                    if fl and fl[-1]["name"] in ("left_sibling", "right_sibling", "child") and "DirEntry" in fl[-1].get("owner", ""):
+                        link_nodes.append((("s", b, i), st))
+        n = 0
+        for c in pops:
+            starts = v.ok_nodes(c.bb) or list(pg.succ[("t", c.bb)])
+            from cfg import reach_flag_aware
+            reach = reach_flag_aware(f, pg, starts, barrier)
+            bad = [st for (node, st) in link_nodes if node in reach]
+            n += 1
+            if bad:
+                res.fail(Finding(res.rule, "R-TREETYPES/%s/links-followed-for-any-type" % f.path, "validate reads the links of an entry (line %d) on a path where its type was not found to be Root, Storage or Stream: an Unallocated entry that is linked into the tree is accepted, allocate_dir_entry later hands that slot out while the tree still points at it ('insert duplicate' panic, or an image that no longer reopens)" % bad[0]["span"]["line"], f, bad[0]["span"]))
+            else:
+                res.ok({"function": f.path, "type_tests": nb, "link_reads": len(link_nodes)}, nontrivial=True)
+        res.floor("tree walks", n, ctx.table("floors").get("treetypes_walks", 0))
+        res.floor("link reads in validate", len(link_nodes), ctx.table("floors").get("treetypes_links", 0))
+        return res
+    return run
+
+
+def branchunit(pid):
+    """R-BRANCHUNIT: a stream of at least MINI_STREAM_CUTOFF bytes lives in a chain of SECTORS, a shorter one in a
+    chain of 64-byte MINI sectors.  In the stream layer, arithmetic that sits on a branch which established `length >=
+    MINI_STREAM_CUTOFF` must not measure with MINI_SECTOR_LEN, and arithmetic on a branch which established `length <
+    MINI_STREAM_CUTOFF` must not measure with the sector length: the boundary up to which a grown regular stream is
+    zero-filled is the end of its SECTOR (rounding to the next 64 bytes leaves the rest of the sector showing old
+    data)."""
+    def run(ctx):
+        res = RuleResult("R-BRANCHUNIT(%s)" % pid, "in the stream layer no arithmetic on a regular-chain branch measures in mini sectors, and none on a mini-chain branch in sectors")
+        n = 0
+        for f in ctx.fx.fns.values():
+            if not f.path.startswith("internal::stream::"):
+                continue
+            g = None
+            pr = None
+            for b, blk in enumerate(f.blocks):
+                if blk["cleanup"]:
+                    continue
+                sites = []
+                for i, st in enumerate(blk["stmts"]):
+                    if st["s"] == "assign" and st["rv"]["r"] == "binop" and st["rv"]["op"].replace("WithOverflow", "") in ("Mul", "Div", "Rem", "Add", "Sub"):
+                        sites.append((("s", b, i), [st["rv"]["a"], st["rv"]["b"]], st["span"]))
+                t = blk["term"]
+                if t["t"] == "call" and (t.get("callee") or t.get("func") or "") is not None:
+                    from cg import callee_name
+                    nm = callee_name(t) or ""
+                    if nm.split("::")[-1] in ("div_ceil", "next_multiple_of", "saturating_mul", "checked_mul", "rem_euclid", "div_euclid"):
+                        sites.append((("t", b), t["args"], t["span"]))
+                if not sites:
+                    continue
+                pr = pr or Prov(f)
+                g = g or _guards(ctx, f)
+                for (node, ops, span) in sites:
+                    txt = " ".join(pr.operand(o) for o in ops)
+                    mini = "MINI_SECTOR_LEN" in txt
+                    reg = bool(re.search(r"sector_len\(", txt)) and "MINI" not in txt
+                    if not (mini or reg):
+                        continue
+                    atoms = g.atoms_at(node)
+                    is_reg = any(re.match(r"^\(Ge\(.*,const:(\w+::)*MINI_STREAM_CUTOFF( as u64)?\)\)$", a) or re.match(r"^\(Le\(const:(\w+::)*MINI_STREAM_CUTOFF( as u64)?,", a) for a in atoms)
+                    is_mini = any(re.match(r"^\(Lt\(.*,const:(\w+::)*MINI_STREAM_CUTOFF( as u64)?\)\)$", a) or re.match(r"^\(Gt\(const:(\w+::)*MINI_STREAM_CUTOFF( as u64)?,", a) for a in atoms)
+                    if not (is_reg or is_mini) or (is_reg and is_mini):
+                        continue
+                    n += 1
+                    if (is_reg and mini) or (is_mini and reg):
+                        res.fail(Finding(res.rule, "R-BRANCHUNIT/%s/%s" % (f.path, "mini-unit-on-regular-branch" if is_reg else "sector-unit-on-mini-branch"), "%s measures with %s on the branch that established the stream is %s: the boundary computed there is not a boundary of the chain the stream lives in (a grown regular stream is zero-filled only up to the next 64 bytes, and the rest of its sector shows old data)" % (f.path.split("::")[-1], "MINI_SECTOR_LEN" if is_reg else "the sector length", "a regular one (length >= MINI_STREAM_CUTOFF)" if is_reg else "a mini stream (length < MINI_STREAM_CUTOFF)"), f, span))
+                    else:
+                        res.ok({"function": f.path, "line": span["line"], "branch": "regular" if is_reg else "mini", "unit": "mini sector" if mini else "sector"})
+        res.floor("unit arithmetic on a cutoff branch", n, ctx.table("floors").get("branchunit_sites", 0))
+        return res
+    return run
+
+
+def refillcap(pid):
+    """R-REFILLCAP: StreamBuffer::refill_with is entered with an empty window (Stream::fill_buf clears it first, so that
+    a failed refill cannot serve old bytes at the new offset - defect D4).  The filled length may be raised only AFTER
+    the fill callback has succeeded: no store to `cap` (directly or through set_cap) is passed on the way to the error
+    exit of the callback."""
+    def run(ctx):
+        res = RuleResult("R-REFILLCAP(%s)" % pid, "in StreamBuffer::refill_with the filled length is not raised before the fill callback has succeeded")
+        f = ctx.fx.fns.get("internal::stream_buffer::StreamBuffer::refill_with")
+        if f is None:
+            res.gone.append("StreamBuffer::refill_with")
+            return res
+        v = view(ctx, f)
+        pg = v.pg
+        fills = [c for c in v.calls.values() if re.search(r"FnOnce(<.*>)?::call_once$|FnMut(<.*>)?::call_mut$|Fn(<.*>)?::call$", c.name) and v.err_nodes(c.bb)]
+        stores = [(n_, "store to cap") for n_ in v.stores_to_field("cap")]
+        for c in v.calls.values():
+            if c.name.endswith("StreamBuffer::set_cap") or c.name.endswith("StreamBuffer::seek"):
+                stores.append((("t", c.bb), c.name.split("::")[-1] + "()"))
+        n = 0
+        for c in fills:
+            n += 1
+            errs = set(v.err_nodes(c.bb))
+            early = [(n_, w) for (n_, w) in stores if errs & pg.reach_after(n_) and ("t", c.bb) in pg.reach_after(n_)]
+            if early:
+                res.fail(Finding(res.rule, "R-REFILLCAP/%s/cap-raised-before-fill" % f.path, "refill_with raises the filled length (%s) before the fill callback ran: when the callback fails, the window keeps that length over bytes that were never read (zeros, or the previous window's), and the retried read on the same handle returns them as data" % early[0][1], f, c.term["span"]))
+            else:
+                res.ok({"function": f.path, "cap_stores": len(stores), "before_the_callback": 0}, nontrivial=True)
+        res.floor("fill callbacks", n, ctx.table("floors").get("refillcap_sites", 0))
+        return res
+    return run
+
+
+def dotdot(pid):
+    """R-DOTDOT: name_chain_from_path resolves `..` by dropping the last name; when there is none, the path leaves the
+    root and the call is refused with InvalidInput - for every kind of path.  After `names.pop()` found the chain
+    empty no Ok return is reachable."""
+    from rules_sink import _edge_label
+
+    def run(ctx):
+        res = RuleResult("R-DOTDOT(%s)" % pid, "in name_chain_from_path no Ok return is reachable once `names.pop()` has found the chain empty (a `..` that leaves the root is always refused)")
+        f = ctx.fx.fns.get(ctx.table("norm").get("normaliser", "internal::path::name_chain_from_path")) or ctx.fx.fns.get("internal::path::name_chain_from_path")
+        if f is None:
+            res.gone.append("name_chain_from_path")
+            return res
+        v = view(ctx, f)
+        pg = v.pg
+        g = _guards(ctx, f)
+        errs = set(v.all_err_nodes())
+        rets = set(pg.returns())
+        n = 0
+        for b, blk in enumerate(f.blocks):
+            if blk["cleanup"] or blk["term"]["t"] != "switch":
+                continue
+            for k, tgt in enumerate(f.succ(b)):
+                val, vals = _edge_label(f, b, k)
+                atoms = g.describe_all(b, val, vals)
+                if not any(re.match(r"^(Vec::pop|<impl \[T\]>::split_last|Vec::<T, A>::pop)\(.*\) is None$", a) or re.match(r"^!?\(?Option::is_none\((Vec::pop)", a) for a in atoms):
+                    continue
+                n += 1
+                en = pg.edge_node(b, tgt)
+                reach = pg.reach(en, errs)
+                if reach & rets:
+                    res.fail(Finding(res.rule, "R-DOTDOT/%s/escape-not-refused" % f.path, "after `names.pop()` found the name chain empty (a `..` above the root) an Ok return is still reachable: some paths that leave the root (`/..`, `/a/../../b`) resolve inside it instead of being refused with InvalidInput, and calls on them change the file", f, blk["term"]["span"]))
+                else:
+                    res.ok({"function": f.path, "empty_pop_line": blk["term"]["span"]["line"], "leads_to": "refusal only"}, nontrivial=True)
+        res.floor("empty-pop edges", n, ctx.table("floors").get("dotdot_sites", 0))
+        return res
+    return run
+
+
+def hdrcountuse(pid):
+    """R-HDRCOUNTUSE: the header's sector counts (FAT, DIFAT, MiniFAT, directory) are among the documented tolerated
+    deviations: permissive open must give the same result whatever they say.  So outside the header's own reader and
+    writer they are only ever COMPARED (the strict refusals, the stripping of zero padding); they never enter
+    arithmetic, a capacity, a length or a loop bound - what is read is governed by the chains themselves."""
+    def run(ctx):
+        res = RuleResult("R-HDRCOUNTUSE(%s)" % pid, "outside Header::read_from / write_to the header's sector counts are only compared, never used in arithmetic, as a capacity or as a loop bound")
+        n = 0
+        rx = re.compile(r"\.num_(fat|difat|minifat|dir)_sectors\b")
+        for f in ctx.fx.fns.values():
+            if "internal::header::" in f.path:
+                continue
+            pr = None
+            for b, blk in enumerate(f.blocks):
+                if blk["cleanup"]:
+                    continue
+                for i, st in enumerate(blk["stmts"]):
+                    if st["s"] != "assign" or st["rv"]["r"] != "binop":
+                        continue
+                    pr = pr or Prov(f)
+                    ops = [pr.operand(st["rv"]["a"]), pr.operand(st["rv"]["b"])]
+                    if not any(rx.search(o) for o in ops) or any("param:self" in o and rx.search(o) for o in ops):
+                        continue
+                    op = st["rv"]["op"].replace("WithOverflow", "")
+                    n += 1
+                    if op in ("Eq", "Ne", "Lt", "Le", "Gt", "Ge"):
+                        res.ok({"function": f.path, "line": st["span"]["line"], "use": "comparison"})
+                    elif not st["span"].get("macros"):
+                        res.fail(Finding(res.rule, "R-HDRCOUNTUSE/%s/%s" % (f.path, op), "%s computes with a sector count taken from the header (%s): the header's counts are a documented tolerated deviation - a file whose count is wrong must open permissively exactly like the undamaged one, so nothing but the strict comparison may depend on them (here the amount that is read or allocated does)" % (f.path.split("::")[-1], [o for o in ops if rx.search(o)][0][:90]), f, st["span"]))
+                t = blk["term"]
+                if t["t"] == "call" and not t["span"].get("macros"):
+                    from cg import callee_name
+                    short = (callee_name(t) or "").split("::")[-1]
+                    if short in ("with_capacity", "reserve", "reserve_exact", "resize", "try_reserve", "take", "truncate", "set_len"):
+                        pr = pr or Prov(f)
+                        if any(rx.search(pr.operand(a)) for a in t["args"]):
+                            n += 1
+                            res.fail(Finding(res.rule, "R-HDRCOUNTUSE/%s/%s" % (f.path, short), "%s sizes %s(..) by a sector count taken from the header: a tolerated wrong count changes what permissive open reads or allocates" % (f.path.split("::")[-1], short), f, t["span"]))
+        res.floor("uses of header sector counts", n, ctx.table("floors").get("hdrcountuse_sites", 0))
         return res
     return run
 
@@ -2106,6 +2395,12 @@ def keepcount(pid):
                 ns = [re.match(r"^\(Lt\((.*),len\(param:self\.sector_ids\)\)\)$", x) for x in atoms]
                 ns = [x.group(1) for x in ns if x]
                 if not ns:
+                    # the cut sits under a comparison with something DERIVED from the list's length (len - 1, len / 2):
+                    # then some shrink that should cut does not - the sectors it keeps come back with their old bytes
+                    odd = [x for x in atoms if re.match(r"^\((Lt|Le)\(.*,(?!len\(param:self\.sector_ids\)\)\)$).*len\(param:self\.sector_ids\).*\)\)$", x)]
+                    if odd:
+                        n += 1
+                        res.fail(Finding(res.rule, "R-KEEPCOUNT/%s/cut-under-adjusted-guard" % f.path, "%s cuts the chain only under %s: a shrink by fewer sectors than that leaves the surplus sectors linked, and a later grow exposes their old bytes instead of zeros" % (f.path.split("::")[-1], odd[0][:100]), f, c.term["span"]))
                     continue
                 n += 1
                 if any(k == "Sub(%s,const:1)" % nn for nn in ns):
